@@ -119,6 +119,14 @@ def _walk_same_func(node):
         todo.extend(ast.iter_child_nodes(n))
 
 
+def _might_tuple_state(node) -> bool:
+    """cheap pre-test for normalize.tuple_state_split: some local is subscripted by a constant and assigned a tuple display"""
+    tup = {t.id for n in ast.walk(node) if isinstance(n, ast.Assign) and isinstance(n.value, ast.Tuple) for t in n.targets if isinstance(t, ast.Name)}
+    if not tup:
+        return False
+    return any(isinstance(n, ast.Subscript) and isinstance(n.value, ast.Name) and n.value.id in tup and isinstance(n.slice, ast.Constant) for n in ast.walk(node))
+
+
 class _NoInline(Exception):
     pass
 
@@ -264,10 +272,10 @@ class Inliner:
             return self.cache[key]
         if key in self.active or len(self.active) >= MAX_DEPTH:
             return f.raw
-        from .normalize import propagate_copies, merge_twin_locals, split_parallel_assign, scalar_replace, desugar_tables, matchify, might_apply, might_dispatch, might_matchify, might_unroll, normalize_formats, unroll_literal_loops
+        from .normalize import tuple_state_split, propagate_copies, merge_twin_locals, split_parallel_assign, scalar_replace, desugar_tables, matchify, might_apply, might_dispatch, might_matchify, might_unroll, normalize_formats, unroll_literal_loops
 
         cand = self._has_candidate(f.raw)
-        fmt = might_apply(f.raw) or might_dispatch(f.raw, f.module.top) or might_unroll(f.raw, f.module.top) or might_matchify(f.raw) or cand
+        fmt = _might_tuple_state(f.raw) or might_apply(f.raw) or might_dispatch(f.raw, f.module.top) or might_unroll(f.raw, f.module.top) or might_matchify(f.raw) or cand
         if not cand and not fmt:
             out = self._roles(f, f.raw)
             self.cache[key] = out
@@ -283,6 +291,7 @@ class Inliner:
                 merge_twin_locals(node)
             if fmt or changed:
                 changed |= scalar_replace(node, f.module)
+                changed |= tuple_state_split(node)
                 changed |= unroll_literal_loops(node, f.module.top)
                 changed |= normalize_formats(node, f.module.top)
                 changed |= desugar_tables(node, f.module.top)
